@@ -46,6 +46,7 @@ struct Node { var link[2]; int64_t id; int64_t canary; };
 static long long fin_ids[MAXID]; static size_t nfin;
 static long long fin_count[MAXID];
 extern var Node;
+static int fin_allocs;                            /* > 0: every Node finaliser allocates that many managed objects */
 static long long anode_fin, anode_dealloc;        /* every finalised arena object is also handed back to its own deallocator */
 static void Node_New(var self, var args) { struct Node* n = self; n->id = c_int(get(args, $I(0))); n->canary = NODE_CANARY; n->link[0] = n->link[1] = NULL; }
 static void Node_Del(var self) {
@@ -55,6 +56,7 @@ static void Node_Del(var self) {
   if (id > 0) fin_count[id]++;
   n->canary = 0;
   if (type_of(self) != Node) anode_fin++;
+  if (fin_allocs > 0) { for (int k = 0; k < fin_allocs; k++) { var g = new(Int, $I(k)); (void)g; } }    /* a finaliser that allocates */
 }
 var Node = Cello(Node, Instance(New, Node_New, Node_Del));
 
@@ -475,6 +477,13 @@ static int __attribute__((noinline)) real_main(int argc, char** argv) {
       bulkn = n + 1;                              /* teardown at the latest finalises every one of them, once */
       HC_TRY(boxcont_build(n); scrub(); do_collect(0); do_collect(1); do_collect(0));
       long twice = 0, gone = 0; for (long i = 0; i <= n; i++) { if (fin_count[1000 + i] > 1) twice++; if (fin_count[1000 + i] == 1) gone++; }
+      ev_begin("bulk"); ev_int("n", n); ev_int("rooted", 0); ev_int("lost", 0); ev_int("twice", twice); ev_int("stale", 0); ev_int("gone", gone);
+      ev_str("exc", hc_exc); ev_int("line", cur_line); ev_end();
+    } else if (hc_is(0, "finalloc")) {         /* finalloc <n> <k> : n garbage Nodes whose finalisers allocate k objects each, in the middle of a sweep */
+      long n = (long)hc_int(1); if (n > 20000) n = 20000;
+      bulkn = n; fin_allocs = (int)hc_int(2);
+      HC_TRY(cycles_build(n); scrub(); do_collect(0); do_collect(1); do_collect(0));
+      long twice = 0, gone = 0; for (long i = 0; i < n; i++) { if (fin_count[1000 + i] > 1) twice++; if (fin_count[1000 + i] == 1) gone++; }
       ev_begin("bulk"); ev_int("n", n); ev_int("rooted", 0); ev_int("lost", 0); ev_int("twice", twice); ev_int("stale", 0); ev_int("gone", gone);
       ev_str("exc", hc_exc); ev_int("line", cur_line); ev_end();
     } else if (hc_is(0, "viewcopy")) {         /* copies of views are ordinary managed objects */
